@@ -3234,12 +3234,6 @@ func (p *Posix) PutObject(ctx context.Context, po s3response.PutObjectInput) (s3
 	verifhook.At("posix.putobject.beforelink")
 	err = f.link()
 	verifhook.At("posix.putobject.linked")
-	if errors.Is(err, syscall.EEXIST) {
-		return s3response.PutObjectOutput{
-			ETag:      etag,
-			VersionID: versionID,
-		}, nil
-	}
 	if errors.Is(err, s3err.GetAPIError(s3err.ErrNoSuchBucket)) {
 		return s3response.PutObjectOutput{}, s3err.GetAPIError(s3err.ErrNoSuchBucket)
 	}
